@@ -711,7 +711,16 @@ func TestScheduledIssuanceAndReload(t *testing.T) {
 		}
 		defer os.RemoveAll(dir)
 
-		w, path, err := build(setup{Store: storeA, Subject: "u", TTL: "2s"}, dir)
+		// with a token cache in use (and a lifetime which makes the finalizer use it), what is handed out after the threads are
+		// done has to verify against what is published then
+		cached := rapid.Bool().Draw(t, "tokenCache")
+		su := setup{Store: storeA, Subject: "u", TTL: "2s"}
+
+		if cached {
+			su.TTL, su.Cache = "5m", true
+		}
+
+		w, path, err := build(su, dir)
 		if err != nil {
 			t.Fatalf("harness: %v", err)
 		}
@@ -827,6 +836,26 @@ func TestScheduledIssuanceAndReload(t *testing.T) {
 
 		if len(problems) != 0 {
 			t.Fatalf("%s\npreemptions=%v first=%d issues=%d reloads=%d", strings.Join(problems, "\n"), pre, first, nIssue, nReload)
+		}
+
+		vkit.S.LabelIf(cached, "scheduled.with_token_cache")
+
+		if cached {
+			// nobody runs any more: the token handed out now - from the cache or new - verifies against the key set published now
+			ti, _, ierr := issue(w)
+			if ierr != nil {
+				t.Fatalf("issuing after the schedule failed: %v", ierr)
+			}
+
+			keys, _, kerr := jwksOf(w)
+			if kerr != nil {
+				t.Fatalf("jwks: %v", kerr)
+			}
+
+			if verr := verifyAgainst(ti, keys); verr != nil {
+				t.Fatalf("token cache in use: the token handed out after issuing and reloading had overlapped does not verify against the published key set: %v\npreemptions=%v first=%d issues=%d reloads=%d",
+					verr, pre, first, nIssue, nReload)
+			}
 		}
 	})
 }
